@@ -139,6 +139,21 @@ def run(ctx):
                     viol(f"MassFunctionWDM/{wmodel}/high-mass-unaffected", f"{wmodel} mx={mx}: dn/dm at the highest mass differs from CDM by {dn[-1] / cdm.dndm[-1] - 1:.3g}", {"mx": mx})
             if not np.allclose(prev, cdm.dndm, rtol=1e-3):
                 viol(f"MassFunctionWDM/{wmodel}/cdm-limit", f"{wmodel}: dn/dm at mx=1e4 keV differs from CDM by up to {float(np.max(np.abs(prev / cdm.dndm - 1))):.3g}", {"wdm_model": wmodel})
+        # histories on one object with a recalibration model: after the particle mass (or redshift, or the WDM model's parameters) changes, the
+        # recalibrated dn/dm is that of a fresh object — in particular it converges to CDM when the particle becomes heavy
+        for amodel in ("Schneider12_vCDM", "Schneider12", "Lovell14"):
+            kwh = dict(mb, alter_model=amodel, wdm_mass=0.5)
+            oh = MassFunctionWDM(**kwh)
+            oh.dndm
+            for chg in ({"wdm_mass": 1e4}, {"z": 1.0}, {"wdm_params": {"mu": 1.3}}, {"wdm_mass": 2.0}):
+                oh.update(**chg)
+                kwh.update(chg)
+                nfw += 1
+                fr_ = MassFunctionWDM(**copy.deepcopy(kwh)).dndm
+                if not np.allclose(oh.dndm, fr_, rtol=1e-10):
+                    viol(f"MassFunctionWDM/{amodel}/history", f"MassFunctionWDM(alter_model={amodel}): after update({chg}) dn/dm differs from a fresh object's by up to {float(np.max(np.abs(oh.dndm / fr_ - 1))):.3g}",
+                         {"alter_model": amodel, "sequence": f"MassFunctionWDM(alter_model={amodel!r}, wdm_mass=0.5); dndm; update({chg}); dndm"})
+                    break
         # convergence to CDM must not depend on the wavenumber range: narrow ranges take the framework's separate sigma_8 integration path
         for (lo_, hi_) in ((-4.0, 6.0), (-3.0, 5.0), (-6.0, 3.0)):
             for cls_w, cls_c, q_ in ((TransferWDM, Transfer, "power"), (MassFunctionWDM, MassFunction, "sigma")):
